@@ -97,7 +97,7 @@ def toric2d_tie(rep, work, recs):
         return
     pt = lambda c: '(' + ', '.join(coq_Z(x) for x in c) + ')'
     pl = lambda l: '[' + '; '.join(pt(c) for c in l) + ']'
-    lines = ['From Coq Require Import ZArith List Bool.\nImport ListNotations.\nFrom PQ Require Import Toric2D.\nFrom PQ Require Planar2D Planar2DLogicals RotatedPlanar2D Toric3D Planar3D Planar3DLogicals RotatedPlanar3D RotatedPlanar3DLogicals XCube.\nLocal Open Scope Z_scope.\n']
+    lines = ['From Coq Require Import ZArith List Bool.\nImport ListNotations.\nFrom PQ Require Import Toric2D.\nFrom PQ Require Planar2D Planar2DLogicals RotatedPlanar2D RotatedPlanar2DLogicals Toric3D Planar3D Planar3DLogicals RotatedPlanar3D RotatedPlanar3DLogicals XCube.\nLocal Open Scope Z_scope.\n']
     for r in items:
         sup = '[' + '; '.join(pl([it[1] for it in op]) for op in r['stab_ops']) + ']'
         lg = [pl([it[1] for it in op]) for op in r['lx_ops'] + r['lz_ops']]
@@ -125,8 +125,8 @@ def toric2d_tie(rep, work, recs):
                 r['size'][0], r['size'][1], r['size'][2], pl(r['qubits']), pl(r['stab_coords']), sup, extra))
         else:
             extra = ''
-            if r['cls'] == 'Planar2DCode':
-                extra = (' && Planar2DLogicals.logicals_match %d %d %s' % (r['size'][0], r['size'][1], ' '.join(lg))) if len(lg) == 2 else ' && false'
+            if r['cls'] in ('Planar2DCode', 'RotatedPlanar2DCode'):
+                extra = (' && ' + r['cls'][:-4] + 'Logicals.logicals_match %d %d %s' % (r['size'][0], r['size'][1], ' '.join(lg))) if len(lg) == 2 else ' && false'
             lines.append('Eval vm_compute in ' + r['cls'][:-4] + '.table_matches %d %d %s %s %s%s.\n' % (
                 r['size'][0], r['size'][1], pl(r['qubits']), pl(r['stab_coords']), sup, extra))
     f = os.path.join(work, 'c01_toric2d.v')
